@@ -861,6 +861,15 @@ func newMemFile(node *node, name string, memfs *memFS, openMode int) *memFile {
 	}
 	if openMode&os.O_TRUNC != 0 {
 		node.data = nil
+		// An empty buffer means "not loaded yet" for a file backed by a tar
+		// entry, so a truncated file would show the entry's content and size
+		// again. Truncation detaches the content: keep the entry (package
+		// ownership) but with nothing left to read from it.
+		if node.te != nil && node.te.header.Size != 0 {
+			te := *node.te
+			te.header.Size = 0
+			node.te = &te
+		}
 	}
 	if openMode&os.O_APPEND != 0 {
 		m.offset = int64(len(node.data))
